@@ -13,7 +13,7 @@ EXTENDS Naturals, Sequences, FiniteSets, TLC, Json
 Conts == {"c1","c2","c1b"}          \* c1b is a value-equal twin of c1
 Hnds == {"h1","h2"}
 Drws == {"d1","d2","d3"}            \* d3 is a value-equal twin of d1
-Cabs == {"k0","k1","k2","k3","k4"}
+Cabs == {"k0","k1","k2","k3","k4","k5"}      \* k5 holds the equal twins d1 and d3, in that order
 EqCls == [o \in Conts \cup Hnds \cup Drws |-> CASE o = "c1b" -> "c1" [] o = "d3" -> "d1" [] OTHER -> o]
 Eq(a, b) == EqCls[a] = EqCls[b]
 NameOf == [o \in Conts \cup Hnds |-> CASE o = "c1b" -> "c1" [] OTHER -> o]
@@ -22,18 +22,22 @@ IsA(o, T) == T = "Body" \/ TypeOf[o] = T
 DHandle == [d \in Drws |-> CASE d = "d2" -> "h2" [] OTHER -> "h1"]
 DCont == [d \in Drws |-> CASE d = "d1" -> "c1" [] d = "d2" -> "c2" [] OTHER -> "c1b"]
 KCont == [k \in Cabs |-> CASE k = "k0" -> "c1" [] k = "k1" -> "c2" [] k = "k2" -> "c1" [] k = "k3" -> "c1b" [] OTHER -> "c2"]
-KDrws == [k \in Cabs |-> CASE k = "k0" -> {"d1","d2"} [] k = "k1" -> {"d1","d2"} [] k = "k2" -> {"d1"} [] k = "k3" -> {} [] OTHER -> {"d3"}]
+\* a field that the value equality of drawers ignores: d1 and d3 are equal, but only d3 (and d2) is `correct`
+DCorrect == [d \in Drws |-> d # "d1"]
+KDrws == [k \in Cabs |-> CASE k = "k0" -> {"d1","d2"} [] k = "k1" -> {"d1","d2"} [] k = "k2" -> {"d1"} [] k = "k3" -> {} [] k = "k4" -> {"d3"}
+                                [] OTHER -> {"d1","d3"}]
 \* patterns for the container attribute
 PC == { <<"none">> } \cup { <<"lit", c>> : c \in {"c1","c2"} }
         \cup { <<"match", T, n>> : T \in {"Container","Body"}, n \in {"*","c1","c2"} }     \* "*" = no name constraint
 \* patterns for the drawers attribute (a collection)
-PD == { <<"none">> } \cup { <<"lit", d>> : d \in {"d1","d2"} }
+PD == { <<"none">>, <<"correct">> } \cup { <<"lit", d>> : d \in {"d1","d2"} }       \* correct = match(Drawer)(correct=True)
         \cup { <<"match", hn, cn>> : hn \in {"*","h1","h2"}, cn \in {"*","c1","c2"} }        \* match(Drawer)(handle=match(Handle)(name=hn), container=match(Container)(name=cn))
         \cup { <<"any", S>> : S \in (SUBSET {"d1","d2"}) \ {{}} } \cup { <<"all", S>> : S \in (SUBSET {"d1","d2"}) \ {{}} }
 SatC(p, k) == CASE p[1] = "none" -> TRUE
                 [] p[1] = "lit" -> Eq(KCont[k], p[2])
                 [] p[1] = "match" -> IsA(KCont[k], p[2]) /\ (p[3] = "*" \/ NameOf[KCont[k]] = p[3])
 SatDW(p, k, KD) == CASE p[1] = "none" -> TRUE
+                [] p[1] = "correct" -> \E d \in KD[k] : DCorrect[d]
                 [] p[1] = "lit" -> \E d \in KD[k] : Eq(d, p[2])
                 [] p[1] = "match" -> \E d \in KD[k] : (p[2] = "*" \/ NameOf[DHandle[d]] = p[2]) /\ (p[3] = "*" \/ NameOf[DCont[d]] = p[3])
                 [] p[1] = "any" -> \E d \in KD[k], s \in p[2] : Eq(d, s)
